@@ -1,7 +1,7 @@
 // ---- contract of PaymentState::resolve (src/htlc_manager.rs), used by units paystate (proved)
 // and lifecycle (assumed at the call in the free fn resolve) ----
 //@ fn htlc_manager::PaymentState::resolve
-//@ ensures#every_listener_gets_resp [C07,C06]
+//@ ensures#every_listener_gets_resp [C07,C06,C01,C02]
       forall|i: int| 0 <= i < old(self).htlcs@.len() ==> (#[trigger] old(self).htlcs@[i]).fate() == Some(resp)
 //@ ensures#emptied [C07,C06]
       final(self).htlcs@.len() == 0
@@ -11,7 +11,7 @@
 //@ invariant#prefix_kept
       self.htlcs@.len() <= old(self).htlcs@.len()
       && self.htlcs@ == old(self).htlcs@.subrange(0, self.htlcs@.len() as int)
-//@ invariant#popped_suffix_answered [C07]
+//@ invariant#popped_suffix_answered [C07,C06,C01,C02]
       forall|i: int| self.htlcs@.len() <= i < old(self).htlcs@.len() ==> (#[trigger] old(self).htlcs@[i]).fate() == Some(resp)
 //@ invariant#resolution_recorded
       self.resolution == Some(resp)
